@@ -24,7 +24,7 @@ RULE = (
     "contents {fingerprint 2^(iN+j)3^b, every single-cell array, every 0/1 array for N<=3}; "
     "(b) CorrFunc member subsets x auto/cross -> sample() and from_corrfuncs with {none,ref,unk,both}; "
     "(c) HistData.from_catalog on 2..4 patch catalogs; (d) all sample matrices over {0,1,2} with M*B<=6 "
-    "plus fingerprints and matrices with one NaN / inf entry in every position; normalised counts with all weight of a bin in one patch (0/0 samples); resample_jackknife directly on 2..400 (2000) patches; sampling again after PatchedCounts.set_patch_pair; and the same matrices on top of a common value 1e6 (exact shift invariance, tolerance 1e-8); (e) pipeline with patch k removed from all frames. Oracle: explicit-loop "
+    "plus fingerprints and matrices with one NaN / inf entry in every position; normalised counts with all weight of a bin in one patch (0/0 samples; binary and decimal values); resample_jackknife directly on 2..400 (2000) patches; sampling again after PatchedCounts.set_patch_pair; and the same matrices on top of a common value 1e6 (exact shift invariance, tolerance 1e-8); (e) pipeline with patch k removed from all frames. Oracle: explicit-loop "
     "leave-one-out recomputation in patch-index order, (N-1)/N sum (x_k-mean)(x_k-mean)^T. Non-trivial: "
     "contents in which a permutation/loss of a patch changes some sample (asserted per case)."
 )
@@ -42,6 +42,8 @@ def cases(tier, seed):
             out.append(dict(part="sum", T=T, B=B, N=N, auto=auto, content="fp"))
         # first bin: catalog 1 has objects (weights, pairs) in patch 0 only - the sample without patch 0 is 0/0
         out.append(dict(part="sum", T="NormalisedCounts", B=B, N=N, auto=auto, content="fp", single_patch_weights=True))
+        # the same with values that are no binary fractions (sums are rounded): sample 0 is still 0/0, not noise/noise
+        out.append(dict(part="sum", T="NormalisedCounts", B=B, N=N, auto=auto, content="fp", single_patch_weights="decimal"))
         # single cells
         if B <= 2:
             for b, i, j in itertools.product(range(B), range(N), range(N)):
@@ -124,6 +126,8 @@ def run_sum(case):
     sw1 = C.fp_sumw(B, N, 0)
     if case.get("single_patch_weights"):
         sw1[0, 1:] = 0.0  # first bin: all weight of catalog 1 sits in patch 0, sample 0 is 0/0
+    if case.get("single_patch_weights") == "decimal":
+        sw1 = sw1 * 0.1 + np.where(sw1 > 0, 0.2, 0.0)
     sw2 = sw1.copy() if auto else C.fp_sumw(B, N, 7)
     if T == "PatchedCounts":
         counts = build_counts(case)
@@ -141,6 +145,8 @@ def run_sum(case):
             counts[0, 1:, :] = 0.0
             if auto:
                 counts[0, :, 1:] = 0.0
+        if case.get("single_patch_weights") == "decimal":
+            counts = counts * 0.1 + np.where(counts > 0, 0.7, 0.0)
         x = C.make_norm(B, N, auto, counts=counts, sw1=sw1, sw2=sw2)
         ed, es = ref.ref_norm_term(counts, sw1, sw2, auto)
     try:
